@@ -34,6 +34,7 @@ def run_impl(header, ops):
 
 def first_diff(impl_lines, model_lines):
     for i, (a, b) in enumerate(zip(impl_lines, model_lines)):
+        if b == "GAVEUP": return None      # outside the model's stated domain from here on (Model/CBelt.lean); counted by the caller
         if not lines_equal(a, b): return i
     if len(impl_lines) != len(model_lines): return min(len(impl_lines), len(model_lines))
     return None
